@@ -38,7 +38,7 @@ m = {
     ],
     "checks": checks,
     "not_applicable": [{"property_id": k, "reason": v} for k, v in sorted(NOT_CLAIMED.items()) if k not in CLAIMED],
-    "notes": "see DESIGN.md; known findings in known_findings.json; seeded changes in seeded/",
+    "notes": "see DESIGN.md; known findings in known_findings.json; seeded changes in seeded/, behaviour-preserving changes in harmless/",
 }
 json.dump(m, open(os.path.join(ROOT, "MANIFEST.json"), "w"), indent=1)
 print("MANIFEST.json:", len(checks), "checks,", len(m["not_applicable"]), "not claimed")
